@@ -199,6 +199,10 @@ func TestVerifC10Gen(t *testing.T) {
 		emit(b, 0, "crafted")
 		emit(b, -1, "crafted")
 	}
+	// structured stream: every length / count / type / value field of valid files x every boundary value
+	verifC10SiteInputs(zzverif.EnvInt("VERIF_SITES_MAX", 12000), func(b []byte, maxArray int, site string) {
+		emit(b, maxArray, "site_"+site)
+	})
 	root := zzverif.NewRng(zzverif.Seed())
 	n := zzverif.EnvInt("VERIF_N", 3000)
 	var base []byte
